@@ -7,8 +7,12 @@
 (*  - the manager state machine (refresh histories x queries) for a small universe.               *)
 EXTENDS Accounts
 
-CONSTANTS MCEpochs,      \* epochs a lifecycle field can hold (besides FFE)
-          MCQueryEpochs  \* epochs asked about
+CONSTANTS MCEpochs,        \* epochs a lifecycle field can hold (besides FFE)
+          MCQueryEpochs,   \* epochs asked about (laws)
+          MCAtomicEpochs,  \* epochs asked about in the state machine
+          MCOverlapKinds,  \* queries that are under way while other calls run: kinds ...
+          MCOverlapEpochs, \* ... and epochs
+          MCSeen           \* bound on the number of account sets / tables such a query may have seen
 
 Records == {r \in [index : {7}, elig : MCEpochs \cup {FFE}, act : MCEpochs \cup {FFE}, exit : MCEpochs \cup {FFE},
                    wd : MCEpochs \cup {FFE}, slashed : BOOLEAN, bal0 : BOOLEAN] : WellFormed(r)}
@@ -54,17 +58,41 @@ R2 == (W(<<"a">>) :> Rec(11, 1, 2, 3, FALSE)) @@ (W(<<"a", "b">>) :> Rec(13, 0, 
 MCOuts == {[mode |-> "err", recs |-> NoVals], [mode |-> "ok", recs |-> NoVals],
            [mode |-> "ok", recs |-> R1], [mode |-> "ok", recs |-> R2]}
 
+\* the smaller universe of the overlap configuration (MC_Accounts_overlap.cfg substitutes these)
+MCCfgsSmall == {<<[w |-> "W", form |-> "pat", p |-> Alt(Lit("a"), Lit("b")), pre |-> FALSE, post |-> TRUE]>>}
+MCCfgsMid == {<<[w |-> "W", form |-> "pat", p |-> Cat(Lit("a"), Star(AnyChar)), pre |-> FALSE, post |-> FALSE],
+                [w |-> "V", form |-> "empty"]>>}
+MCOffersSmall == {{}, MCNames, {W(<<"a">>), W(<<"a", "b">>)}}
+
+MCIdxs == {{11, 14}, {12, 13, 999}}
+MCKinds == Kinds
+
 MCInit ==
     /\ mgr \in {"wallet", "dirk"}
     /\ cfg \in MCCfgs
     /\ known = {}
     /\ vals = NoVals
+    /\ ref = Idle
+    /\ open = NoOpen
     /\ last = NoReply
 
+\* histories on one pair of instances: refreshes as a whole or part by part (anything may happen between
+\* the parts), queries with nothing in between, and one query under way while all of that goes on
 MCNext ==
     \/ \E offer \in MCOffers, out \in MCOuts : Refresh(offer, out)
-    \/ \E kind \in {"validating", "sync", "validating_by_index", "sync_by_index"}, e \in MCQueryEpochs,
-          idxs \in {{11, 14}} : Query(kind, e, idxs)
+    \/ \E offer \in MCOffers : \E k \in AccountsAfter(mgr, cfg, known, offer) : RefreshAccountsTo(offer, k)
+    \/ \E out \in MCOuts : RefreshValidators(out)
+    \/ open = NoOpen /\ \E kind \in MCKinds, e \in MCAtomicEpochs, idxs \in MCIdxs : Query(kind, e, idxs)
+    \/ \E kind \in MCOverlapKinds, e \in MCOverlapEpochs, idxs \in {{12, 13, 999}} : QueryCall(kind, e, idxs)
+    \/ QueryReturn
 
 MCSpec == MCInit /\ [][MCNext]_vars
+
+\* bound: what a query under way may have seen
+MCBound == open.st = "open" => Cardinality(open.ks) <= MCSeen /\ Cardinality(open.vs) <= MCSeen
+
+\* the by-index forms agree with the plain ones, in every reachable state of the two instances
+ByIndexAgrees ==
+    \A kind \in ByIndexKinds, e \in MCQueryEpochs, idxs \in MCIdxs \cup {{}} :
+        ByIndexAgreesFor(kind, e, idxs, known, vals)
 =============================================================================
